@@ -150,14 +150,25 @@ def module_event(roots, envspec, policy, fw, layout, kw=None, I=None, want=(), i
                         c = {"root": i + 1, "sample": j + 1, "exc": "", "known": False, "values": {}, "orig": {}}
                         for k, v in s.items():
                             c["orig"][I(k)] = val_node(v, I)
+                        shared = json.loads(json.dumps(s))      # one copy of the sample, used for BOTH constructions below
                         try:
-                            kwargs = {I.text(labels[I(k)]): json.loads(json.dumps(v)) for k, v in s.items()}
+                            kwargs = {I.text(labels[I(k)]): v for k, v in shared.items()}
                             inst = rc[0](**kwargs)
                             for k, v in s.items():
                                 c["values"][I(k)] = inst_node(getattr(inst, I.text(labels[I(k)])), I)
                         except Exception as e:
                             c["exc"] = DI.exc_name(e)
                         ev["constructs"].append(c)
+                        # the same sample values again (a caller keeps its data and builds another instance from it)
+                        c2 = {"root": i + 1, "sample": j + 1, "exc": "", "known": False, "values": {}, "orig": dict(c["orig"]), "again": True}
+                        try:
+                            inst2 = rc[0](**{I.text(labels[I(k)]): v for k, v in shared.items()})
+                            for k, v in s.items():
+                                c2["values"][I(k)] = inst_node(getattr(inst2, I.text(labels[I(k)])), I)
+                        except Exception as e:
+                            c2["exc"] = DI.exc_name(e)
+                        if not c["exc"]:
+                            ev["constructs"].append(c2)
     ev["env"] = make_env(I, res.sreg, dkf=envspec.get("dkf", ()), dkr=envspec.get("dkr", ()))
     return ev
 
@@ -373,7 +384,8 @@ def literal_cases(chk, n):
 
 
 # ---------------------------------------------------------------------- C11: wide-alphabet keys
-KEY_ALPHABET = list("abcxyzABZ019") + ["_", "-", " ", ".", '"', "'", "\\", "/", "$", "é", "ß", "я", "名", "Ω", ":", "#"]
+KEY_ALPHABET = list("abcxyzABZ019") + ["_", "-", " ", ".", '"', "'", "\\", "/", "$", "é", "ß", "я", "名", "Ω", ":", "#",
+                                        "\u2028", "\x85", "\n", "\t", "\x0c"]
 
 
 def wide_key(rng):
@@ -409,7 +421,8 @@ def key_cases(chk, n):
         obj = {k: rng.choice([1, "s", None, [1], {"q": 1}]) for k in keys}
         nested_key = wide_key(rng) if rng.random() < 0.5 else "child"
         samples = [dict(obj), dict(obj)]
-        if rng.random() < 0.5 and key_facts(nested_key)["letter"] and key_facts(nested_key)["lead"] == "alpha":
+        if rng.random() < 0.5 and key_facts(nested_key)["letter"] and key_facts(nested_key)["lead"] == "alpha" \
+                and key_facts(nested_key)["fold"] not in ({"z9"} | {key_facts(k)["fold"] for k in keys}):
             samples[0] = {nested_key: dict(obj), "z9": 1}
             samples[1] = {nested_key: dict(obj), "z9": None}
         fw = rng.choice(FRAMEWORKS)
